@@ -29,8 +29,8 @@ META = {
             "PruneExact, CountsOk, ContentOk, ResMonotone (resources in effect by the ISO nearest-ancestor rule), MaxIdOk "
             "and the post-state the abstract model prescribes. The impl-shaped layer transcribes lopdf's algorithms with "
             "switches for the confirmed deviations; TLC explores every call sequence up to the depth bound from every "
-            "starting document as the code is (the only violations are the listed findings), with the five repaired defects "
-            "seeded back (additionally exactly the five former findings) and with every confirmed deviation repaired (none). "
+            "starting document as the code is (no violation: all eight findings of this check are repaired in lopdf) and with the "
+            "repaired defects seeded back (the violations are exactly the eight former findings). "
             "Sampled behaviours (breadth-first and random simulation to depth 10) are stepped through the real lopdf API "
             "and seeded random programs of 5-40 calls on generated documents and on documents loaded from bytes saved by "
             "lopdf are recorded; Trace_Editing binds every logged call to its action, checks effect and invariants on the "
@@ -56,10 +56,10 @@ OPS = ["NewObjectId", "AddObject", "Replace", "DeleteObject", "RemoveAnnot", "Pr
        "GetOrCreateResources", "AddXObject", "AddGraphicsState", "BuildOutline", "Save", "SaveLoad",
        "AddToPageContent", "InsertImage", "InsertFormObject"]
 # violation tags the model produces "as the code is" (the Allowed constant of the cfgs): the known findings
-MODEL_FINDINGS = ["content.sharedStream", "resources.nameCollision"]
+MODEL_FINDINGS = []
 # ... and with the repaired defects seeded back (Editing!DevSeeded / FormerFindings): the negative control of the Judge
 FORMER_FINDINGS = ["delete.array.dup", "delete.streamdict", "delete.trailer", "resources.shadow", "contents.refToArray",
-                   "content.streamBoundary"]
+                   "content.streamBoundary", "content.sharedStream", "resources.nameCollision"]
 DRIFT = ("drift.",)
 
 
@@ -78,9 +78,9 @@ def model_runs(tier):
 
 
 def run_models(chk, tier):
-    """every cfg explores `as the code is`, `with the repaired defects seeded back` and `everything repaired`; the invariant
-    Refines fails (ToolError) if the design as the code is violates a clause outside the listed findings, the seeded
-    design one outside those and the five former findings, or the repaired design any clause at all"""
+    """every cfg explores `as the code is` and `with the repaired defects seeded back`; the invariant Refines fails
+    (ToolError) if the design as the code is violates a clause outside the listed findings (there are none), or the
+    seeded design one outside the former findings"""
     runs = model_runs(tier)
 
     def one(x):
@@ -137,7 +137,7 @@ def model_vacuity(cases):
         raise vlib.ToolError("as-the-code-is model reaches %s, expected exactly %s" % (sorted(tags["asis"]), MODEL_FINDINGS))
     if tags["repaired"]:
         raise vlib.ToolError("the model with every deviation repaired violates %s" % sorted(tags["repaired"]))
-    for m in tags:
+    for m in ("asis", "seeded"):
         if not any(c["mode"] == m for c in cases):
             raise vlib.ToolError("vacuous: no behaviour of variant %s printed" % m)
 
@@ -287,6 +287,23 @@ def input_classes(recs):
             cl.add("op:" + op)
             if n >= 20:
                 cl.add("program>=20")
+            if op == "Renumber":             # renumber_objects_with(start): start inside / above the numbers in use, gaps
+                ids = sorted(objs)
+                st = r["c"]["x"] or 1
+                gap = bool(ids) and ids != list(range(ids[0], ids[0] + len(ids)))
+                if ids and ids[0] < st <= ids[-1]:
+                    cl.add("renumber:start-inside" + ("+gap" if gap else ""))
+                if ids and st > ids[-1]:
+                    cl.add("renumber:start-above")
+                if st == 1 and gap:
+                    cl.add("renumber:from-1+gap")
+            if op == "AddGraphicsState" and r["c"]["id"] in pages:
+                own = objs.get(r["c"]["id"], {}).get("v", {}).get("Resources")
+                if own and own["k"] == "ref":
+                    own = objs.get(own["n"])
+                if own and own.get("k") == "dict":
+                    e = own["v"].get("ExtGState")
+                    cl.add("addgs-on:extgstate-" + ("absent" if e is None else "ref" if e["k"] == "ref" else "inline"))
             if op == "DeletePages":          # argument lists: repeats, out of range, 0, unsorted
                 nums = r["c"]["nums"]
                 if len(nums) != len(set(nums)) and any(1 <= x <= len(pages) and nums.count(x) > 1 for x in nums):
@@ -747,6 +764,8 @@ def run(tier):
     need = {"contents:ref", "contents:array", "contents:refToArray", "contents:missing", "resources:own",
             "resources:inherited-or-none", "annots", "pages>=3", "nested-tree", "loaded", "loaded-xref-stream", "compressed-stream",
             "program>=20", "resources:shared",
+            "renumber:start-inside+gap", "renumber:start-above", "renumber:from-1+gap",
+            "addgs-on:extgstate-ref", "addgs-on:extgstate-inline", "addgs-on:extgstate-absent",
             "deletepages:repeat", "deletepages:out-of-range", "deletepages:zero", "deletepages:unsorted", "deletepages:nested-tree",
             # the calls of parser_aux.rs: every Contents shape, shared / not decodable content, a taken name, a shared
             # Resources object, old content that ends without white space
